@@ -94,6 +94,69 @@ pub fn parse_fresh(r: &RTx) -> Result<Transaction, Failure> {
     }
 }
 
+/// Structural histories (field codes 7..=14): the object is parsed without one or two of its inputs / outputs,
+/// a sighash call warms its caches, and the missing elements (taken from a fresh parse of the target) are
+/// supplied through the list-growing API. None when the target is too small for the route.
+fn reach_through_structural_history(r: &RTx, h: &History, idx: usize, script: &Script, value: u64, warm_flags: &[u8]) -> Result<Option<Transaction>, Failure> {
+    let code = h.field % 15;
+    let (nin, nout) = (r.ins.len(), r.outs.len());
+    let mut r0 = r.clone();
+    // (is_input, first missing position, number missing)
+    let (inputs, at, k) = match code {
+        7 if nin >= 2 => (true, nin - 1, 1),
+        8 if nin >= 2 => {
+            let k = 1 + (h.which as usize) % (nin - 1).min(3);
+            (true, nin - k, k)
+        }
+        9 if nin >= 2 => (true, 0, 1),
+        10 if nin >= 2 => (true, gen::pick(h.which, nin), 1),
+        11 if nout >= 1 => (false, nout - 1, 1),
+        12 if nout >= 1 => {
+            let k = 1 + (h.which as usize) % nout.min(3);
+            (false, nout - k, k)
+        }
+        13 if nout >= 1 => (false, 0, 1),
+        14 if nout >= 1 => (false, gen::pick(h.which, nout), 1),
+        _ => return Ok(None),
+    };
+    if inputs {
+        r0.ins.drain(at..at + k);
+    } else {
+        r0.outs.drain(at..at + k);
+    }
+    let full = parse_fresh(r)?;
+    let mut t = parse_fresh(&r0)?;
+    let warm = sighash_of(warm_flags[(h.warm_flag as usize) % warm_flags.len()])?;
+    let widx = idx.min(r0.ins.len() - 1);
+    let _ = lib_call("sighash_preimage(warm, elements missing)", || t.sighash_preimage(warm, widx, script, value))?;
+    if inputs {
+        let mut missing = Vec::new();
+        for i in at..at + k {
+            missing.push(full.get_input(i).ok_or_else(|| failure("get_input", "None", "Some"))?);
+        }
+        match code {
+            7 => lib_call("add_input", || t.add_input(&missing[0]))?,
+            8 => lib_call("add_inputs", || t.add_inputs(missing.clone()))?,
+            9 => lib_call("prepend_input", || t.prepend_input(&missing[0]))?,
+            _ => lib_call("insert_input", || t.insert_input(at, &missing[0]))?,
+        }
+    } else {
+        let mut missing = Vec::new();
+        for i in at..at + k {
+            missing.push(full.get_output(i).ok_or_else(|| failure("get_output", "None", "Some"))?);
+        }
+        match code {
+            11 => lib_call("add_output", || t.add_output(&missing[0]))?,
+            12 => lib_call("add_outputs", || t.add_outputs(missing.clone()))?,
+            13 => lib_call("prepend_output", || t.prepend_output(&missing[0]))?,
+            _ => lib_call("insert_output", || t.insert_output(at, &missing[0]))?,
+        }
+    }
+    let now = t.to_bytes().map_err(|e| failure("to_bytes", e.to_string(), "Ok"))?;
+    crate::ensure_eq_hex!(now, crate::refimpl::wire::encode_tx(r), "structural_history_reaches_target_contents");
+    Ok(Some(t))
+}
+
 pub fn nonpal(v: u32) -> bool {
     v.to_le_bytes() != v.to_be_bytes()
 }
@@ -104,7 +167,9 @@ pub fn nonpal(v: u32) -> bool {
 #[derive(Clone, Debug, Serialize, Deserialize)]
 pub struct History {
     pub warm_flag: u8,
-    /// 0 sequence, 1 vout, 2 txid byte of an input; 3 value, 4 script of an output; 5 version; 6 locktime
+    /// 0 sequence, 1 vout, 2 txid byte of an input; 3 value, 4 script of an output; 5 version; 6 locktime;
+    /// 7..=14 structural: the caches are warmed while elements are still missing, which are then supplied by
+    /// add_input, add_inputs, prepend_input, insert_input, add_output, add_outputs, prepend_output, insert_output
     pub field: u8,
     pub which: u16,
 }
@@ -112,10 +177,15 @@ pub struct History {
 /// The transaction with contents `r`, reached through the mutation API after the caches were filled on a
 /// variant differing in one field; None when the variant would change an input's coinbase status.
 pub fn reach_through_history(r: &RTx, h: &History, idx: usize, script: &Script, value: u64, warm_flags: &[u8]) -> Result<Option<Transaction>, Failure> {
+    if h.field % 15 >= 7 {
+        if let Some(t) = reach_through_structural_history(r, h, idx, script, value, warm_flags)? {
+            return Ok(Some(t));
+        }
+    }
     let mut r0 = r.clone();
     let wi = gen::pick(h.which, r.ins.len());
     let wo = if r.outs.is_empty() { None } else { Some(gen::pick(h.which, r.outs.len())) };
-    match (h.field % 7, wo) {
+    match (h.field % 15 % 7, wo) {
         (0, _) => r0.ins[wi].sequence ^= 0x0001_0100,
         (1, _) => r0.ins[wi].vout = r0.ins[wi].vout.wrapping_add(1),
         (2, _) => r0.ins[wi].txid_wire[7] ^= 0x20,
@@ -131,7 +201,7 @@ pub fn reach_through_history(r: &RTx, h: &History, idx: usize, script: &Script, 
     let mut t = parse_fresh(&r0)?;
     let warm = sighash_of(warm_flags[(h.warm_flag as usize) % warm_flags.len()])?;
     let _ = lib_call("sighash_preimage(warm)", || t.sighash_preimage(warm, idx, script, value))?;
-    match (h.field % 7, wo) {
+    match (h.field % 15 % 7, wo) {
         (0, _) | (1, _) | (2, _) => {
             let mut x = t.get_input(wi).ok_or_else(|| failure("get_input", "None", "Some"))?;
             x.set_sequence(r.ins[wi].sequence);
